@@ -224,7 +224,7 @@ _APP_TY = {
     "bool": "bool", "Not": "bool", "Eq": "bool", "NotEq": "bool", "Lt": "bool",
     "LtE": "bool", "Gt": "bool", "GtE": "bool", "In": "bool", "NotIn": "bool",
     "Is": "bool", "IsNot": "bool", "isinstance": "bool", "And": "bool", "Or": "bool",
-    "fmt": "str", ".derive": "bytes", "unhex": "bytes", "int2be": "bytes",
+    "fmt": "str", ".derive": "bytes", "unhex": "bytes", "int2be": "bytes", "hexw": "str", "bytes": "bytes",
 }
 
 
@@ -308,6 +308,11 @@ def mk_app(f, args=(), kw=()):
                 return Const(_fold_binop(f, a.v, b.v))
             except Exception:
                 pass
+        if f == "Mod" and (ty_of(a) in ("str", "bytes")):
+            w = _hex_width(a)
+            if w is not None and not isinstance(b, TupleV):
+                return App("hexw", (b, w))              # "%0{2W}x" % v: zero-padded lower-case hex, 2W digits
+            return App("fmt", args)                     # other printf-style formatting stays opaque
         # bytes/list concatenation -> cat / list
         if f == "Add":
             ta, tb = ty_of(a), ty_of(b)
@@ -368,6 +373,9 @@ def mk_app(f, args=(), kw=()):
             r = a.v in b.items
             return Const(r if f == "In" else not r)
         return App(f, args)
+    if f in ("Or", "And") and n == 2 and isinstance(args[0], Const):
+        t = bool(args[0].v)
+        return args[0] if t == (f == "Or") else args[1]   # value of `a or b` / `a and b` for a constant a
     if f == "Not" and n == 1:
         a = args[0]
         if isinstance(a, Const):
@@ -422,6 +430,11 @@ def mk_app(f, args=(), kw=()):
         return App("cat", out)
     if f == ".join" and n == 2 and not kw:
         sep, seq = args
+        if isinstance(sep, Const) and sep.v == "" and is_app(seq, "maplam"):
+            body, it = seq.args
+            if is_app(body, "hexw") and body.args[1] == Const(1) and isinstance(body.args[0], Sym) \
+                    and body.args[0].n.startswith("\u03bb"):
+                return mk_app("hexs", (App("bytes", (it,)),))   # "".join("%02x" % b for b in L) == hexlify(bytes(L))
         if isinstance(sep, Const) and sep.v == b"" and isinstance(seq, TupleV):
             return mk_app("cat", seq.items)             # b"".join([a,b,..]) == a+b+..
         if isinstance(sep, Const) and isinstance(seq, TupleV) and all(isinstance(i, Const) for i in seq.items):
@@ -448,7 +461,9 @@ def mk_app(f, args=(), kw=()):
                 pass
         if is_app(a, ".encode") and len(a.args) == 2 and isinstance(a.args[1], Const) \
                 and str(a.args[1].v).lower() in ("ascii", "utf-8", "utf8", "latin-1"):
-            return App("unhex", (a.args[0],))          # unhexlify accepts ASCII str and bytes alike
+            return mk_app("binascii.unhexlify", (a.args[0],))   # unhexlify accepts ASCII str and bytes alike
+        if is_app(a, "hexw"):
+            return App("int2be", a.args)               # unhexlify("%0{2W}x" % v) == v.to_bytes(W, "big") for 0 <= v < 256^W
         return App("unhex", args)
     if f == "hexs" and n == 1 and isinstance(args[0], Const) and isinstance(args[0].v, bytes):
         import binascii
@@ -507,6 +522,11 @@ def mk_app(f, args=(), kw=()):
             return mk_app("be2int", (mk_app("rev", (args[0],)),))
     if f == "be2int" and n == 1 and isinstance(args[0], Const) and isinstance(args[0].v, bytes):
         return Const(int.from_bytes(args[0].v, "big"))
+    if f == ".to_bytes" and n == 3 and ty_of(args[0]) == "int" and isinstance(args[2], Const) and not kw:
+        if args[2].v == "big":
+            return App("int2be", (args[0], args[1]))
+        if args[2].v == "little":
+            return mk_app("rev", (App("int2be", (args[0], args[1])),))
     if f == "rev" and n == 1:
         a = args[0]
         if is_app(a, "rev"):
@@ -616,13 +636,6 @@ def mk_app(f, args=(), kw=()):
         if t in ("int", "bytes", "str", "bool", "tuple", "list", "dict", "float"):
             import builtins
             return Const(hasattr(getattr(builtins, t), args[1].v))
-    if f == "Mod" and n == 2:
-        a, b = args
-        # printf-style formatting with a constant format is kept as fmt(...)
-        if isinstance(a, Const) and isinstance(a.v, (str, bytes)):
-            return App("fmt", args)
-        if ty_of(a) == "str":
-            return App("fmt", args)
     if f == "index" and n == 2:
         o, k = args
         if isinstance(k, Const):
@@ -638,6 +651,23 @@ def mk_app(f, args=(), kw=()):
     if f == "getattr" and n == 2 and isinstance(args[1], Const):
         return App(f, args)
     return App(f, args, kw)
+
+
+def _hex_width(fmt):
+    """W (a term) if fmt is the format string '%0{2W}x', else None."""
+    import re
+    if isinstance(fmt, Const) and isinstance(fmt.v, str):
+        m = re.match(r"^%0(\d+)x$", fmt.v)
+        if m and int(m.group(1)) % 2 == 0:
+            return Const(int(m.group(1)) // 2)
+        return None
+    # "%0" + str(2*W) + "x"
+    if is_app(fmt, "Add") and len(fmt.args) == 2 and fmt.args[1] == Const("x") and is_app(fmt.args[0], "Add") \
+            and fmt.args[0].args[0] == Const("%0") and is_app(fmt.args[0].args[1], "str") and len(fmt.args[0].args[1].args) == 1:
+        d = fmt.args[0].args[1].args[0]
+        if is_app(d, "Mult") and Const(2) in d.args:
+            return d.args[0] if d.args[1] == Const(2) else d.args[1]
+    return None
 
 
 def _const_val(v):
